@@ -4,3 +4,6 @@ pub assume_specification<T: PartialEq> [ <[T]>::contains ] (s: &[T], x: &T) -> (
 
 pub assume_specification<T: Clone> [<[T] as std::borrow::ToOwned>::to_owned] (s: &[T]) -> (r: Vec<T>)
     ensures r@ == s@;    // used on [f32] only (Copy)
+
+// used by rewrite rule R12 (Vec::retain as an explicit rebuild)
+pub assume_specification<T> [std::mem::replace] (dest: &mut T, src: T) -> (r: T) ensures r == *old(dest), *final(dest) == src;
